@@ -24,6 +24,7 @@ CONSTANTS
   MinSteps = 2
   MaxSteps = 2
   RationalOnly = FALSE
+  Twins = FALSE
   NeedDt = FALSE
   BindLeaves = TRUE
   EmitOn = TRUE
